@@ -104,6 +104,8 @@ def run(scenario, tape_values):
             "alloc": {n: c._allocation for n, c in living.items()},
             "requested": fp.demand,
             "nmade": len(made),
+            # every child that exists (somebody still holds it), whether or not the pool remembers it
+            "alive": {c.name: (c._supply, c._utilisation, c._allocation) for c in kids if c is not None},
         }
         prev_op = world.op
         world.op = "observer"
@@ -215,11 +217,17 @@ def run(scenario, tape_values):
         if not new_calls and not released_now:
             world.probe("adjustment-idle")
         # aggregation over all living children
-        living = a["children"]
-        want_supply = sum(a["supply"][n] for n in living)
-        with_supply = [n for n in living if a["supply"][n] > 0]
-        want_u = sum(a["util"][n] for n in with_supply) / len(with_supply) if with_supply else 1.0
-        want_a = sum(a["alloc"][n] for n in with_supply) / len(with_supply) if with_supply else 1.0
+        alive = dict(a["alive"])
+        for n in a["children"]:  # dropped by the harness, not yet collected: exists as well
+            alive.setdefault(n, (a["supply"][n], a["util"][n], a["alloc"][n]))
+        forgotten = sorted(n for n in alive if n not in a["children"])
+        if forgotten:
+            V("C15/child-forgotten", "adjustment %d: children %r still exist (supply %r) but are neither active nor released any more" % (k, forgotten, [alive[n][0] for n in forgotten]))
+        living = sorted(alive)
+        want_supply = sum(alive[n][0] for n in living)
+        with_supply = [n for n in living if alive[n][0] > 0]
+        want_u = sum(alive[n][1] for n in with_supply) / len(with_supply) if with_supply else 1.0
+        want_a = sum(alive[n][2] for n in with_supply) / len(with_supply) if with_supply else 1.0
         if a["agg"]["supply"] != want_supply:
             V("C15/aggregate-supply", "adjustment %d: supply %r, sum over all children %r" % (k, a["agg"]["supply"], want_supply))
         if a["agg"]["utilisation"] != want_u:
